@@ -29,6 +29,24 @@ def dotted(n: ast.AST) -> str | None:
     return None
 
 
+def xdotted(n: ast.AST, mod) -> str | None:
+    """``dotted`` with the leading name resolved through the module's imports: ``re_sub`` after ``from re import sub as
+    re_sub`` and ``regex.sub`` after ``import re as regex`` are both ``re.sub``.  ``mod``: a ModInfo (or its imports dict)."""
+    d = dotted(n)
+    if d is None:
+        return None
+    imports = getattr(mod, "imports", mod) or {}
+    head, _, rest = d.partition(".")
+    if head in imports:
+        m, attr = imports[head]
+        if attr is None:
+            base = head if (m == head or m.startswith(head + ".")) else m       # import os.path binds "os"
+        else:
+            base = f"{m}.{attr}" if m else attr
+        return base + ("." + rest if rest else "")
+    return d
+
+
 def body_wo_doc(fn: ast.FunctionDef) -> list[ast.stmt]:
     b = list(fn.body)
     if b and isinstance(b[0], ast.Expr) and isinstance(b[0].value, ast.Constant) and isinstance(b[0].value.value, str):
